@@ -216,6 +216,27 @@ def gen_cases(chk):
                 # sometimes only some cells are listed in lib.cells (the others are instantiated only)
                 items = shuffled(rng, range(n)) if rng.random() < 0.7 else rng.sample(range(n), rng.randrange(1, n + 1))
             add(k + "_dag", k, g, items, aref=rng.choice([0, 0, 1, 2, 3]) if k == "gds" else 0)
+    # raw libraries in which some leaf cells have only an abstract view (and are instantiated, several times, by others);
+    # tetris libraries in which different cells share a name (cells are objects: the orderers must not confuse them)
+    for _ in range(60 if quick else 600):
+        n = rng.choice(sizes_q)
+        g = rand_dag(rng, n, maxdeg=rng.choice([2, 4, 6]))
+        leaves = [v for v in range(n) if not g[v]]
+        nol = [v for v in leaves if rng.random() < 0.6]
+        items = shuffled(rng, range(n)) if rng.random() < 0.7 else rng.sample(range(n), rng.randrange(1, n + 1))
+        add("raw_abstract_leaves", "raw", g, items, nolayout=nol)
+    add("raw_abstract_leaves", "raw", [[1, 1, 2], [2], []], [0, 1, 2], nolayout=[2])
+    for _ in range(60 if quick else 600):
+        n = rng.choice(sizes_q)
+        g = rand_dag(rng, n, maxdeg=rng.choice([1, 2, 4]))
+        add("tetris_shared_names", "tetris", g, shuffled(rng, range(n)), dup=rng.choice([1, 2, 3]))
+    add("tetris_shared_names", "tetris", [[1], []], [0, 1], dup=1)          # a wrapper named like the cell it wraps
+    # long dependency chains (recursion depth = chain length): dependents listed first, or only the top listed
+    for n in ((1001, 1500) if quick else (1001, 1500, 4000)):
+        chain = [[i + 1] for i in range(n - 1)] + [[]]
+        add("gen_long_chain", "gen", chain, [0])
+        add("gen_long_chain", "gen", chain, list(range(n)))
+    add("place_long_chain", "place", [[i + 1] for i in range(1199)] + [[]], list(range(1200)))
     # CellOrder is the generic helper: cyclic tetris libraries through the proto exporter must give an error
     for _ in range(40 if quick else 400):
         n = rng.choice(sizes_q)
@@ -283,7 +304,8 @@ def nlist(xs):
     return Raw("[" + "; ".join(str(x) for x in xs) + "]")
 
 def run_impl(cases):
-    bare = lambda c: {"k": c["k"], "g": c["g"], "items": c["items"], "aref": c.get("aref", 0)}
+    bare = lambda c: {"k": c["k"], "g": c["g"], "items": c["items"], "aref": c.get("aref", 0),
+                      "nolayout": c.get("nolayout", []), "dup": c.get("dup", 0)}
     res = [None] * len(cases)
     main = [i for i, c in enumerate(cases) if not c.get("iso")]
     CH = 200000
